@@ -890,7 +890,8 @@ def gen_history_programs(r, n, maxlen=25, removals=True, full=False):
                 ops += w
                 steps.append((len(ops) - 1, "rejected", k, algo, d))
             elif what < 0.8 and removals:
-                ops.append(f"remove {fl} c0 {hx(k)}")
+                # every third plain removal goes through the builder: `RemoveOpts::new()` as it is, or `.remove_fully(false)`
+                ops.append(f"remove {fl} c0 {hx(k)}" if len(ops) % 3 else f"remove_opts {fl} c0 {hx(k)} {('default', 'false')[len(ops) // 3 % 2]}")
                 steps.append((len(ops) - 1, "remove", k, None, None))
             elif what < 0.87 and removals and full:
                 ops.append(f"remove_fully {fl} c0 {hx(k)}")
@@ -999,7 +1000,8 @@ def scripted_histories(r):
                 if st[0] == "w":
                     ops.append(w_oneshot(fl, st[2], st[1], st[3])); steps.append((len(ops) - 1, "write", st[1], st[2], st[3]))
                 elif st[0] == "rm":
-                    ops.append(f"remove {fl} c0 {hx(st[1])}"); steps.append((len(ops) - 1, "remove", st[1], None, None))
+                    ops.append(f"remove_opts {fl} c0 {hx(st[1])} default" if si % 2 else f"remove {fl} c0 {hx(st[1])}")
+                    steps.append((len(ops) - 1, "remove", st[1], None, None))
                 elif st[0] == "rf":
                     ops.append(f"remove_fully {fl} c0 {hx(st[1])}"); steps.append((len(ops) - 1, "remove_fully", st[1], None, None))
                 elif st[0] == "cl":
@@ -1220,7 +1222,7 @@ def mon_shared_removal(rr):
                 later_meta = (j, meta_of_line(rr.impl[j]))
             if o[0] == "list" and later_list is None:
                 later_list = (j, list_items(rr.impl[j]))
-            if o[0] in ("remove", "remove_fully", "write") and j > idx and later_meta and later_list:
+            if o[0] in ("remove", "remove_opts", "remove_fully", "write") and j > idx and later_meta and later_list:
                 break
         if later_meta is None:
             continue
@@ -1569,6 +1571,21 @@ def gen_multihash_removal_programs(r):
             ops.append(f"exists s c0 {sri_tok(strong, d)}"); gone = len(ops) - 1
             progs.append(Program(f"mhrm-{strong}-{weak}-{fl}", ops, tags={"expect_reads": expect, "rm": rm, "gone": gone,
                                                                           "variety": ("mhrm", strong, weak, fl)}))
+    # remove_hash of an integrity that NAMES several algorithms removes the content at its own address - the strongest
+    # hash's, where read_hash / exists look - and not what other entries store under the weaker ones
+    for fl in "sa":
+        for strong, weak in (("sha512", "sha256"), ("sha256", "sha1")):
+            d = b"stored under two algorithms " + weak.encode()
+            multi = hx((L.sri_of(strong, d) + " " + L.sri_of(weak, d)).encode())
+            ops = [w_oneshot("s", strong, b"strong", d), w_oneshot("a", weak, b"weak", d)]
+            expect = []
+            ops.append(f"remove_hash {fl} c0 {multi}"); rm = len(ops) - 1
+            for of in "sa":
+                ops.append(f"read {of} c0 {hx(b'weak')}"); expect.append((len(ops) - 1, d))
+                ops.append(f"read_hash {of} c0 {sri_tok(weak, d)}"); expect.append((len(ops) - 1, d))
+            ops.append(f"exists s c0 {sri_tok(strong, d)}"); gone = len(ops) - 1
+            progs.append(Program(f"mh-removehash-{strong}-{weak}-{fl}", ops, tags={"expect_reads": expect, "rm": rm, "gone": gone,
+                                                                                   "variety": ("mh-removehash", strong, weak, fl)}))
     # SUPERSEDED versions: the key was overwritten (no removal in between) and then removed fully.  The removal takes
     # the CURRENT version's content; what the key pointed to earlier - shared with another key, still addressed by
     # callers - is somebody else's
@@ -1599,7 +1616,8 @@ def mon_expect_reads(rr):
     if len(rr.impl) < len(rr.prog.ops):
         return out
     if toks(rr.impl[t["rm"]])[0] != "ok":
-        out.append(Failure("remove_failed", t["rm"], f"remove_fully -> {norm(rr.impl[t['rm']])[:60]}", sig={"op": "remove_fully"}))
+        out.append(Failure("remove_failed", t["rm"], f"{rr.prog.ops[t['rm']].split(' ')[0]} -> {norm(rr.impl[t['rm']])[:60]}",
+                           sig={"op": rr.prog.ops[t["rm"]].split(" ")[0]}))
     for j, want in t["expect_reads"]:
         res = toks(rr.impl[j])
         if want is None:
@@ -2741,7 +2759,7 @@ def mon_confine(rr):
 # ---------------------------------------------------------------------------------------------
 
 SYNC_ONLY = ("hard_link_unchecked", "hard_link_hash", "hard_link_hash_unchecked", "reflink_hash_unchecked")
-HAS_FLAVOUR = ("write", "write_hash", "wopen", "wcreate", "read", "read_hash", "ropen", "ropen_hash", "copy", "copy_unchecked",
+HAS_FLAVOUR = ("write", "write_hash", "wopen", "wcreate", "remove_opts", "read", "read_hash", "ropen", "ropen_hash", "copy", "copy_unchecked",
                "copy_hash", "copy_hash_unchecked", "hard_link", "reflink", "reflink_unchecked", "reflink_hash", "metadata",
                "exists", "remove", "remove_hash", "remove_fully", "clear", "index_insert", "index_find", "index_delete",
                "link_to", "link_to_hash", "lopen", "lopen_auto")
